@@ -11,17 +11,25 @@ import (
 	"reservoir/logging/early"
 	"reservoir/utils/assertedpath"
 	"reservoir/utils/bytesize"
+	"sync/atomic"
 )
 
 var (
 	ErrNoLogFile = errors.New("no log file configured")
 )
 
-var fileLog *fileLogger = nil // Current file logger instance if any
+// Current file logger instance if any. It is replaced from configuration change handlers, which run
+// concurrently with each other and with the API requests that read it.
+var fileLog atomic.Pointer[fileLogger]
 var logLevel slog.LevelVar
 
 func OpenLogFileRead() (*os.File, error) {
-	assertedPath, err := assertedpath.TryAssert(fileLog.Path())
+	current := fileLog.Load()
+	if current == nil {
+		return nil, ErrNoLogFile
+	}
+
+	assertedPath, err := assertedpath.TryAssert(current.Path())
 	if err != nil {
 		return nil, err
 	}
@@ -46,15 +54,17 @@ func appendLogFileWriter(cfg *config.Config, writers *[]io.Writer) io.Writer {
 
 	if logFilePath == "" {
 		slog.Info("Log file logging is disabled, skipping log file writer initialization")
+		fileLog.Store(nil)
 		return nil
 	}
 
-	fileLog = newFileLogger(logFilePath, logFileMaxSize, logFileMaxBackups, logFileCompress)
+	newFileLog := newFileLogger(logFilePath, logFileMaxSize, logFileMaxBackups, logFileCompress)
+	fileLog.Store(newFileLog)
 
-	*writers = append(*writers, fileLog)
+	*writers = append(*writers, newFileLog)
 	slog.Info("Added log file writer", "path", logFilePath, "max_size", logFileMaxSize, "max_backups", logFileMaxBackups, "compress", logFileCompress)
 
-	return fileLog
+	return newFileLog
 }
 
 var initialized bool
